@@ -633,3 +633,21 @@ func TestC04Goyacc(t *testing.T) {
 func init() {
 	reg("c04-goyacc", func(c C04Case) *Violation { return nil })
 }
+
+// FuzzC04Parse: coverage-guided differential fuzzing of the parser (thorough
+// tier). Go's fuzzer cannot be pinned to a seed; a failing input is saved as
+// an ordinary replay file by fuzzFail.
+func FuzzC04Parse(f *testing.F) {
+	for _, s := range []string{"C[1]", "Bbm[2]", "D[1] A_7/E[1] E[2] R[1]", "2[1] 6_7/5[1] 3[2]", "C[1]{key=Am,bpm=200}", "C[1]{lic=some lyric}",
+		"C#m7b5/Gb[1/2,3/4]{txt=a b, mrk=x}\n; comment\nR[1]", "1b_7/5#[01,2/03]", "C_[1]", "C[1]{", "C[1]{a=}", "C♯[1]", "C ; c\n [1]", "_", ";", "C[1];", "Cm", "C[1]{a=b", "1[1]}", "C_{x}[1]", "C[1]{a=b}{c=d}"} {
+		f.Add(s)
+	}
+	f.Fuzz(func(t *testing.T, s string) {
+		if len(s) > 4096 {
+			return
+		}
+		if v := diffParse(s); v != nil {
+			fuzzFail(t, "C04", "c04", C04Case{Text: s}, v)
+		}
+	})
+}
